@@ -30,6 +30,11 @@ func vpJSONMarshal(v any) ([]byte, error) {
 	default:
 		vpUnsupported("json.Marshal of a type other than marshalTrie")
 	}
+	// the field's json tag decides whether it is written at all
+	name, omitEmpty := vpJSONTag()
+	if name == "-" || (omitEmpty && len(mt.M) == 0) {
+		return []byte{'E'}, nil // an object without the field
+	}
 	if mt.M == nil {
 		return []byte{'N'}, nil
 	}
@@ -49,10 +54,29 @@ func vpJSONMarshal(v any) ([]byte, error) {
 	return out, nil
 }
 
+// vpJSONTag: name and omitempty option of the json tag of marshalTrie's only
+// field (read from the type by the executor, by reflection natively).
+func vpJSONTag() (name string, omitEmpty bool) {
+	tag := vpFieldTag(marshalTrie{}, 0, "json")
+	for i := 0; i < len(tag); i++ {
+		if tag[i] == ',' {
+			rest := tag[i+1:]
+			return tag[:i], rest == "omitempty" || (len(rest) > 10 && (rest[:10] == "omitempty," || rest[len(rest)-10:] == ",omitempty"))
+		}
+	}
+	return tag, false
+}
+
 func vpJSONUnmarshal(data []byte, v any) error {
 	p, ok := v.(*marshalTrie)
 	if !ok {
 		vpUnsupported("json.Unmarshal into a type other than *marshalTrie")
+	}
+	if len(data) == 1 && data[0] == 'E' {
+		return nil // the field is absent: the destination keeps what it has
+	}
+	if name, _ := vpJSONTag(); name == "-" {
+		return nil
 	}
 	if len(data) == 1 && data[0] == 'N' {
 		p.M = nil
